@@ -93,6 +93,12 @@ def run(ctx):
     nev = 400 if q else 6000
     tp = os.path.join(ctx.work, "filtersem-trace.ndjson")
     ctx.harness(["filtersem", "record", tp, nev, bins["benchfilter"]])
+    if os.path.exists(tp + ".rejected"):
+        # expressions printed from the documented grammar that NewFilter refused (twice)
+        rej = json.load(open(tp + ".rejected"))
+        ctx.report([{"signature": "wellformed-filter-rejected", "family": "filtersem-record",
+                     "detail": "NewFilter(%r): %s" % (r["q"], r["err"])} for r in rej[:5]], "recorded evaluations: well-formed filters refused")
+        ctx.cov["wellformed_filters_rejected"] = len(rej)
     events = ctx.read_ndjson(tp)
     nbin = sum(1 for e in events if e["ev"] == "apply")
     if len(events) - nbin != nev:
